@@ -160,13 +160,15 @@ def ltsAct (s : String) : Option Martian.LockLTS.Act :=
   | 'U' :: r => (String.ofList r).toNat?.map .unlock
   | 'S' :: r => (String.ofList r).toNat?.map .signal
   | 'K' :: r => (String.ofList r).toNat?.map .kill
+  | 'E' :: r => (String.ofList r).toNat?.map .acquireErr
+  | 'T' :: r => (String.ofList r).toNat?.map .start
   | _ => none
 
 def ltsTrace (rf : Bool) : Martian.LockLTS.St → List Martian.LockLTS.Act → List String → Option (List String)
   | s, [], acc => some (acc.reverse ++ [boolStr s.lockFile, toString s.holders.length, toString s.registered.length])
   | s, a :: r, acc =>
     if Martian.LockLTS.enabled s a then
-      let (s', ok) := Martian.LockLTS.step rf s a
+      let (s', ok) := Martian.LockLTS.step rf Gen.c15RefusedStartRemovesDir s a
       ltsTrace rf s' r ((if ok then "1" else "0") :: acc)
     else none
 
@@ -178,12 +180,17 @@ def handle (op : String) (args : List String) : Option String :=
     let a := fa.core
     let b := fb.core
     let n := Prog.fuel a b
-    -- `compared` parts are equal iff equivalentCall false (theorem equiv_iff_compared_meaning_eq);
-    -- the ignored parts are compared directly
-    let kinds := ignoredDiffKinds (meaning n fa).ignored (meaning n fb).ignored
-    pure (" ".intercalate [boolStr (equivalentCall Gen.c15SelfCompare a b),
-      boolStr (equivalentCall false a b), boolStr a.wf, boolStr b.wf,
-      if kinds.isEmpty then "-" else ",".intercalate kinds])
+    let fs := sfuel fa fb
+    -- `compared` parts are equal iff equivalentCallFull (theorem equiv_iff_compared_meaning_eq);
+    -- the ignored parts are compared directly.  Reply: verdict under the regenerated facts,
+    -- verdict with the disabled lookup fixed, wf of both (core and struct tables), ignored kinds,
+    -- verdict of the first pass alone (call comparison without the struct definitions)
+    let kinds := ignoredDiffKinds (meaning n fs fa).ignored (meaning n fs fb).ignored
+    pure (" ".intercalate [boolStr (equivalentCallFull Gen.c15SelfCompare Gen.c15StructsCompared fa fb),
+      boolStr (equivalentCallFull false Gen.c15StructsCompared fa fb),
+      boolStr (a.wf && structsWf fa.structs), boolStr (b.wf && structsWf fb.structs),
+      if kinds.isEmpty then "-" else ",".intercalate kinds,
+      boolStr (equivalentCall Gen.c15SelfCompare a b)])
   | "expequal", [a, b] => do
     let a ← parseAll exp a
     let b ← parseAll exp b
@@ -200,6 +207,7 @@ def handle (op : String) (args : List String) : Option String :=
     | none => pure "not-enabled"
   | "selfcompare", [] => pure (boolStr Gen.c15SelfCompare)
   | "registerfirst", [] => pure (boolStr Gen.c15RegisterFirst)
+  | "structscompared", [] => pure (boolStr Gen.c15StructsCompared)
   | _, _ => none
 
 end Driver.C15
